@@ -99,17 +99,4 @@ IdxStepPutAllBug(en, acc, e) ==
 UpdateIndexPutAllBug(en, old, seq) ==
     FoldLeft(LAMBDA acc, e : IdxStepPutAllBug(en, acc, e), [h |-> {}, ix |-> old], Reverse(seq)).ix
 
-(* -- event log windows (eventlogstore/log.go query/read) ------------------ *)
-\* L: the full listing (oldest first).  kind \in {"none","gt","gte","lt","lte"},
-\* pos: position of the bound entry in L (ignored for "none"), amt: "unset" or Int.
-Amount(amt, n) == IF amt = "unset" \/ amt = 0 THEN 1 ELSE IF amt < 0 THEN n ELSE amt
-Min2(a, b) == IF a < b THEN a ELSE b
-Window(L, kind, pos, amt) ==
-    LET n == Len(L)
-        a == Amount(amt, n)
-    IN  CASE kind = "gt"   -> SubSeq(L, pos + 1, Min2(n, pos + a))
-          [] kind = "gte"  -> SubSeq(L, pos, Min2(n, pos + a - 1))
-          [] kind = "lt"   -> SubSeq(L, IF pos - a < 1 THEN 1 ELSE pos - a, pos - 1)
-          [] kind = "lte"  -> SubSeq(L, IF pos - a + 1 < 1 THEN 1 ELSE pos - a + 1, pos)
-          [] OTHER         -> SubSeq(L, IF n - a + 1 < 1 THEN 1 ELSE n - a + 1, n)
 =============================================================================
